@@ -137,7 +137,9 @@ def explicit_p2sh_sessions(tier):
     # a redeem script above the 10,000-byte script size limit: the hand-over to it fails, and fails again when attempted again
     cases += [("61" * 10000 + "51", [])]
     if tier == "thorough":
-        cases += [("5152935387", []), ("61" * 20 + "51", []), ("03aabbcc7551", []), ("7551", ["07"]), ("61" * 9999 + "51", [])]
+        cases += [("5152935387", []), ("61" * 20 + "51", []), ("03aabbcc7551", []), ("7551", ["07"]),
+                  # exactly 10,000 bytes (the limit), 41 operations: 19 x (<520 bytes> OP_DROP), <41 bytes> OP_DROP OP_1
+                  (("4d0802" + "ab" * 520 + "75") * 19 + "29" + "cd" * 41 + "7551", [])]
     for (redeem, st) in cases:
         spk = "a914" + _hash160(bytes.fromhex(redeem)).hex() + "87"
         stack = list(st) + [redeem]
